@@ -14,12 +14,12 @@ COMMON_NOTE = ("Trusted base: go/types, golang.org/x/tools v0.29.0 (go/packages,
 claimed = {
  "C15": dict(
    technique="static error-flow analysis over go/ssa + VTA call graph (every call into the write closure consumes its error; short-count comparison at the single destination Write)",
-   text="Decides the property (sufficient, not only necessary): by induction over the call graph every error or short count returned by the destination io.Writer reaches the caller of WriteTo/WriteObject/Encode/ToBytes, for every value and every index k of the failing Write, because every one of the ~70 call sites in the write closure provably consumes the error component. No fault is injected and no code is run.",
+   text="Decides the property (sufficient, not only necessary): by induction over the call graph every error or short count returned by the destination io.Writer reaches the caller of WriteTo/WriteObject/Encode/ToBytes, for every value and every index k of the failing Write, because every one of the ~70 call sites in the write closure provably consumes the error component. A write issued in a defer / go statement is an undischarged obligation (its results are discarded by the language). No fault is injected and no code is run.",
    design_ref="DESIGN.md §3 C15, §2.3, Appendix A.4",
    note="Assumes a path on which no Write fails needs no error, and that the writer reports failure through its results (not by panicking)."),
  "C13": dict(
    technique="static error-flow analysis + interval refinement of the reflect.Kind dispatch + panic-site census over go/ssa",
-   text="Decides structural necessary conditions of fail-stop encoding, not the behaviour: (R1) every call that can relay a codec error consumes it, (R2) every return of the kind dispatch reachable for an unsupported kind yields a provably non-nil error, (R3) the encode path contains no unguarded panic site (single-value assertion, Interface() on a struct field, explicit panic), (R4) the list header count and the element loop bound are the same term, (R5) every value writer writes or fails on every path, (R6) the ref table answers only the same container (address and type) with a back-reference. A tree violating any of these has a concrete value on which encoding succeeds with wrong bytes or panics.",
+   text="Decides structural necessary conditions of fail-stop encoding, not the behaviour: (R1) every call that can relay a codec error consumes it, (R2) every return of the kind dispatch reachable for an unsupported kind yields a provably non-nil error, (R3) the encode path contains no unguarded panic site (single-value assertion, Interface() on a struct field, explicit panic), (R4) the list header count and the element loop bound are the same term, (R5) every value writer writes or fails on every path — a write issued in a defer or go statement counts as dropped —, (R6) the ref table answers only the same container (address and type) with a back-reference. A tree violating any of these has a concrete value on which encoding succeeds with wrong bytes or panics.",
    design_ref="DESIGN.md §3 C13",
    note="Does not decide that bytes emitted for supported values are right (C01/C02), nor panics inside package reflect for exotic map keys."),
  "C07": dict(
@@ -34,12 +34,12 @@ claimed = {
    note="IEEE conversion semantics are not modelled; the integrality and float32 guards are recognised by their term shape."),
  "C17": dict(
    technique="static typestate/effect analysis of the pool over go/ssa: select shapes, channel creation and assignment, value flow of the pooled object, call-graph reachability of blocking constructs",
-   text="Decides the property under Go's channel semantics: every channel operation reachable from Get/Return is a case of a select with default, no other blocking construct is reachable (also through the factories), the channel is created once in the constructor with capacity = size and never reassigned, Get returns only the received element or the factory's fresh result, Return's parameter has exactly one use (the send), and a factory's result is deeply fresh (nothing that can carry a reference is copied into it from captured or package memory, the shared read-only maps excepted). No interleaving is enumerated and nothing is run; the conclusion for all schedules follows from the semantics of buffered channels and non-blocking select.",
+   text="Decides the property under Go's channel semantics: every channel operation reachable from Get/Return is a case of a select with default, no other blocking construct is reachable (also through the factories), the channel is created once in the constructor with capacity = size and never reassigned, Get returns only the received element or the factory's fresh result, Return's parameter has exactly one use (the send), and a factory's result is deeply fresh (nothing that can carry a reference is copied into it from captured or package memory, the caller's shared read-only maps excepted; a package-level map or pointer is never fresh). No interleaving is enumerated and nothing is run; the conclusion for all schedules follows from the semantics of buffered channels and non-blocking select.",
    design_ref="DESIGN.md §3 C17, Appendix A.10",
    note="Not covered: a caller returning the same object twice (caller misuse). Trusts Go's channel semantics."),
  "C12": dict(
    technique="static ownership/effect analysis over go/ssa + VTA call graph: writers of every package-level variable vs. functions reachable from the API; lookup-miss guard on shared maps; census of concurrency constructs",
-   text="Decides a sufficient condition instead of exploring schedules: no function reachable from any exported entry point writes a package-level variable or memory reachable from one (writers are init-only or the documented SetLogger), caller-supplied name/type maps — fields, parameters and captured variables, on the codec path and in constructors and pool factories — are written only under a failed lookup of the same key computed from the processed value's type (a complete map is never written; a constant or table key would be written by every first instance), a value aliasing package memory stored into an instance field taints that field, and the package contains no goroutine/sync/atomic construct outside the pool's selects. With the listed assumptions each call then depends only on its own instance and immutable shared memory.",
+   text="Decides a sufficient condition instead of exploring schedules: no function reachable from any exported entry point writes a package-level variable or memory reachable from one (writers are init-only or the documented SetLogger), caller-supplied name/type maps — fields, parameters and captured variables, on the codec path and in constructors and pool factories — are written only under a failed lookup of the same key computed from the processed value's type (a complete map is never written; a constant or table key would be written by every first instance), a value aliasing package memory stored into an instance field taints that field, results handed to the caller do not alias instance memory (R5), and the package contains no goroutine/sync/atomic construct outside the pool's selects. With the listed assumptions each call then depends only on its own instance and immutable shared memory.",
    design_ref="DESIGN.md §3 C12, Appendix A.9",
    note="Assumes reflect/bytes/bufio/time/strings/fmt are safe on distinct values, the configured logger is goroutine-safe, callers do not mutate inputs concurrently, and shared maps are complete."),
  "C11": dict(
@@ -54,7 +54,7 @@ claimed = {
    note="The frozen table (hlint/spec.go) is transcribed from the specification and trusted. Known finding: the compact date x4b is read as seconds where the grammar says minutes (see known_findings.json)."),
  "C06": dict(
    technique="static taint fixpoint over go/ssa (concrete types flowing into interface{} results), codec-pair octet agreement, loop-exit classification, error-flow at tag positions, reachability from the streaming entry points",
-   text="Decides structural necessary conditions, not equality of the n values: no internal carrier (reflect.Value, *_refHolder) can flow into the result of a documented decode entry point or into a returned container; per form the encoder's octets equal the octets the decoder pulls; container loops leave only through counter/flag/error/terminator; failed tag reads are errors; the streaming entry points never reset per-stream tables and no buffered reader wraps a caller-supplied stream.",
+   text="Decides structural necessary conditions, not equality of the n values: no internal carrier (reflect.Value, *_refHolder) can flow into the result of a documented decode entry point or into a returned container; per form the encoder's octets equal the octets the decoder pulls; container loops leave only through counter/flag/error/terminator; failed tag reads are errors; the streaming entry points never reset per-stream tables and no buffered reader wraps a caller-supplied stream; every value read for a container is stored before the next one is read; each chunk is read with a buffer of its own length; every container and back-reference is framed as exactly one production.",
    design_ref="DESIGN.md §3 C06, Appendix A.6/A.8",
    note="ReadData/ReadList/ReadLenTagObject are exported internals (listed exception with reason)."),
  "C10": dict(
@@ -64,37 +64,37 @@ claimed = {
    note="Trusts time.UnixMilli/Unix/Nanosecond contracts."),
  "C04": dict(
    technique="path and dominance rules over go/ssa: first emission after the encoder's ref registration vs the set of productions whose decoder reader registers (computed by a fixpoint over the decoder), registrar insertion paths, registration-before-recursion dominance",
-   text="Decides the numbering discipline reference identity depends on (necessary conditions, not identity in decoded graphs): after every encoder-side registration the first emission is a production the decoder also numbers; a registrar miss always inserts with ordinal len(table); every container reader registers once, outside loops, before any call that can recurse into the value dispatch; encoder registration dominates the recursive element writes; slices grown by reflect.Append are re-announced to their holder; (R6, path exploration of the registrar with reflect getters as pure terms) the ref key carries the container's reflect.Type and, for slices and maps, the container's own data pointer whatever the access path.",
+   text="Decides the numbering discipline reference identity depends on (necessary conditions, not identity in decoded graphs): after every encoder-side registration the first emission is a production the decoder also numbers; a registrar miss always inserts with ordinal len(table); every container reader registers once, outside loops, before any call that can recurse into the value dispatch; encoder registration dominates the recursive element writes; slices grown by reflect.Append are re-announced to their holder; (R6, path exploration of the registrar with reflect getters as pure terms) the ref key carries the container's reflect.Type and, for slices and maps, the container's own data pointer whatever the access path; (R5c) a holder's value is never set after its destinations were notified; (R7) the numbering tables are append-only outside Reset.",
    design_ref="DESIGN.md §3 C04, Appendix A.5",
    note="Registrars are discovered structurally (the function updating the Encoder's non-string-keyed map field / appending to the Decoder's []reflect.Value field)."),
  "C05": dict(
    technique="path enumeration over the field loop of readObject, value-flow of the destination field index, dispatch maps for x60-x6f/'O' in three dispatchers, interval check of the compact instance header, two-sided index-guard rule (go/ssa)",
-   text="Decides structural necessary conditions, not field values over permutations: every iteration path of the definition-driven field loop consumes exactly one wire value; the destination index is findField(wire name of this iteration) and the helper compares name and capitalised name; x60..x6f and 'O' reach the object readers in ReadData, readStruct and readObjectDef; the compact instance header is emitted only with the untruncated index proven in [0,15]; both object readers guard the class index on both sides; the instance is reflect.New(mapped type).",
+   text="Decides structural necessary conditions, not field values over permutations: every iteration path of the definition-driven field loop consumes exactly one wire value; the destination index is findField(wire name of this iteration) and the helper compares name and capitalised name; x60..x6f and 'O' reach the object readers in ReadData, readStruct and readObjectDef; the compact instance header is emitted only with the untruncated index proven in [0,15]; both object readers guard the class index on both sides; the instance is reflect.New(mapped type); (R5) reading or skipping a field never truncates, replaces or deletes from the decoder's numbering tables.",
    design_ref="DESIGN.md §3 C05",
    note="A value-consuming call is a call to a package function from which readTag/getTag is reachable."),
  "C01": dict(
    technique="static table extraction over go/ssa: reflect.Kind→codec tables of encoder and field decoder from refined Kind() facts, first-octet tag sets of every emission vs first-match dispatch maps, interval check of compact headers, converted-sink rule",
-   text="The behaviour (round trip over all values) is NOT decided. Decides necessary conditions, each with a concrete failing value when violated: per scalar kind the encoder's and the field decoder's wire codec agree and the typed reflect setter matches the kinds reaching it; every first octet the encoder can emit resolves to the reader of its production in the value dispatcher and is accepted by the struct/list/map field dispatchers; compact list/instance headers carry the untruncated count proven in range; raw reflect sinks in container readers only store converted or interface-typed values; type slots of typed list/map headers carry a literal, or every literal is numbered the way the decoder numbers it. All obligations of C04, C05, C07, C08, C09, C10 and C16 are evaluated as shared clauses.",
+   text="The behaviour (round trip over all values) is NOT decided. Decides necessary conditions, each with a concrete failing value when violated: per scalar kind the encoder's and the field decoder's wire codec agree and the typed reflect setter matches the kinds reaching it; every first octet the encoder can emit resolves to the reader of its production in the value dispatcher and is accepted by the struct/list/map field dispatchers; compact list/instance headers carry the untruncated count proven in range; raw reflect sinks in container readers only store converted or interface-typed values; type slots of typed list/map headers carry a literal, or every literal is numbered the way the decoder numbers it; (R5) no reflect.Value can flow into a reflect.ValueOf argument (a carrier is never wrapped twice); (R6) the zero reflect.Value persisted in a field meets an IsValid() test before any accessor. All obligations of C04, C05, C07, C08, C09, C10 and C16 are evaluated as shared clauses.",
    design_ref="DESIGN.md §3 C01, §10",
    note="Equality of field contents, element order and map entries is not decided; clauses shared with C04/C07/C08/C09 are reported there."),
  "C02": dict(
    technique="abstract interpretation of every encoder form and container header over go/ssa against the frozen Hessian 2.0 table; path rules for definition-before-instance, per-iteration value counts and map framing; value-flow of names and ordinals",
-   text="Whole-stream well-formedness under an independent parser is NOT decided (that needs emitted bytes). Decides per-form and per-header conformance with the frozen table (tags, octet counts, value ranges, windows, chunk arithmetic), count = loop bound, one value per iteration, class definition before instance with index = table position, lower-cased field names in declaration order, class name from the name map, Z on every successful map path, ref ordinal provenance, type slots (literal, or numbered like the decoder numbers them).",
+   text="Whole-stream well-formedness under an independent parser is NOT decided (that needs emitted bytes). Decides per-form and per-header conformance with the frozen table (tags, octet counts, value ranges, windows, chunk arithmetic), count = loop bound, one value per iteration, class definition before instance with index = table position, lower-cased field names in declaration order, class name from the name map, Z on every successful map path, ref ordinal provenance, type slots (literal or numbered like the decoder numbers them; one name across the forms of a writer), and (R8) every successful path of a container writer spells exactly one production of the grammar (token string of its emissions matched as a whole).",
    design_ref="DESIGN.md §3 C02, §3.0",
    note="Known finding (recorded, not repaired): the compact date x4b carries seconds where the grammar says minutes. List type-name rewriting is not decided."),
  "C09": dict(
    technique="path-sensitive abstract interpretation of the string/binary encoders as productions over views of the input (header octets, payload segments with affine bounds, 0/1/2 chunk iterations) and of the length readers; unit-of-length and payload-reader rules by role; chunk-buffer, loop-exit and output-provenance path rules",
-   text="Content equality for all contents is NOT decided. Decides: lengths count runes of the []rune conversion (resp. octets), chunk cuts index that slice, payload is read one rune/octet per counted unit; every form's tag set, length range and header windows conform; offset and remaining length step by the chunk size under the guard remaining > chunk; readers compute in-range lengths and size buffers per chunk; because the encoder emits N for the empty string no container loop may end on a nil element/key; the decoded []byte is allocated in the call (R4).",
+   text="Content equality for all contents is NOT decided. Decides: lengths count runes of the []rune conversion (resp. octets), chunk cuts index that slice, payload is read one rune/octet per counted unit; every form's tag set, length range and header windows conform; offset and remaining length step by the chunk size under the guard remaining > chunk; readers compute in-range lengths and size buffers per chunk; because the encoder emits N for the empty string no container loop may end on a nil element/key; a null element is stored, never dropped (no cycle from an element read back to itself without a store); the decoded []byte is allocated in the call (R4).",
    design_ref="DESIGN.md §3 C09",
    note="Go's []rune/string conversions are trusted to be inverse on valid UTF-8."),
  "C14": dict(
    technique="two-sided index-guard rule (intervals + dominating comparison facts), interval bound of every non-constant allocation with call-site context and return-range summaries, stream-loop progress rule, recover-boundary reachability over the VTA call graph; panic-site census",
-   text="General panic freedom and resource bounds of the reflective decoder are NOT decided. Decides: every per-stream table access has an index proven ≥0 and dominated by a length comparison; every non-constant allocation on the decode path is proven ≤ 2^20 elements or sized by a container already in memory; every stream-reading loop passes, on each iteration path, a read whose error ends it; loop exits and tag-read errors follow C06.R3/R4; every documented decode entry point is covered by a deferred recover that sets its error result and does not re-panic; (R5) nothing reachable from a decode entry point blocks (wait, sleep, blocking channel operation) and every lock taken there is released by a deferred unlock, so a recovered panic cannot leave an instance locked.",
+   text="General panic freedom and resource bounds of the reflective decoder are NOT decided. Decides: every per-stream table access has an index proven ≥0 and dominated by a length comparison; every non-constant allocation on the decode path is proven ≤ 2^20 elements or sized by a container already in memory; every stream-reading loop passes, on each iteration path, a read whose error ends it; loop exits and tag-read errors follow C06.R3/R4; every documented decode entry point is covered by a deferred recover that sets its error result and does not re-panic; (R5) nothing reachable from a decode entry point blocks (wait, sleep, blocking channel operation) and every lock taken there is released by a deferred unlock, so a recovered panic cannot leave an instance locked; (R6) no operand that can hold decoded (possibly cyclic) data reaches a formatter or logger with a verb that walks it — fmt recurses without a visited set and a list containing itself exhausts the stack, which no recover can catch.",
    design_ref="DESIGN.md §3 C14",
    note="Stack depth on deeply nested input and fatal runtime errors other than allocation by declared size are not covered."),
  "C16": dict(
    technique="dominance and value-flow rules over go/ssa on the extraction functions: visited cut-off on recursive calls, nil-pointer descent (sibling rule), paired map updates by term equality",
-   text="Decides structural necessary conditions, not closure of the maps for all types: each recursive call of the type walk on a struct field's type is dominated by a failed membership test and the insertion; the value walk recurses only under the extractor's verdict and each extractor inserts the key it found absent; empty slices/maps and nil pointers are descended through reflect.New of the element type; every name-map update has a type-map update with the same key term; loops of the value walk visit every element; (R5, a frame condition stricter than the property) no function the extraction reaches touches package-level state written after initialisation, so the maps are a function of the argument.",
+   text="Decides structural necessary conditions, not closure of the maps for all types: each recursive call of the type walk on a struct field's type is dominated by a failed membership test and the insertion; the value walk recurses only under the extractor's verdict and each extractor inserts the key it found absent; empty slices/maps and nil pointers are descended through reflect.New of the element type; every name-map update has a type-map update with the same key term; loops of the value walk visit every element; (R5, a frame condition stricter than the property) no function the extraction reaches touches package-level state written after initialisation, so the maps are a function of the argument; (R2, path forms) every path of the value walk that establishes a container kind makes a recursive call (over the elements or over reflect.New of the element type), a path of the type walk that returns without recursion has excluded slice/array/map for the innermost type examined, and the visited mark is never deleted.",
    design_ref="DESIGN.md §3 C16",
    note="Interface-typed fields and Java-side naming expectations are not decided."),
 }
